@@ -197,6 +197,9 @@ Definition chord_create (sizes : arr_in Z) (keys options : Z) (exclude : bool) :
                     | In1 l => (length l, [l])
                     | In2 w rows => (w, rows) end in
   match rows with [] => None | _ =>
+  (* AND_HIGHER with some minimum above keys concatenates an EMPTY float array: the array becomes float64 and
+     AND_LOWER's range(1, i + 1) then raises TypeError *)
+  if Z.testbit options 2 && Z.testbit options 1 && existsb (fun mn => keys <? mn) (colwise Z.min rows) then None else
   let rows1 := if Z.testbit options 2
                then rows ++ cart (map (fun i => zrange i (keys + 1)) (colwise Z.min rows)) else rows in
   let rows2 := if Z.testbit options 1
